@@ -27,9 +27,9 @@ def run(tier, replay=None):
     run = C.Run(PID, tier, "model_checking")
     cases = R.run_instances(run, "c17_" + tier, instances(tier), R.has_roll)
     # long behaviours (hundreds of records in one history), sampled by TLC's simulation mode
-    deep = 400 if tier == "quick" else 1000
+    deep = 400 if tier == "quick" else 600
     R.deep_runs(run, "c17", [R.inst("deep_min1", trig="startup", count=2, limit=1, sizes=(1, 2), pre="PreB", maxrec=deep, restart=12, faults=3, crash=3),
-                        R.inst("deep_min0_t", trig="startup", append=False, count=1, limit=0, sizes=(0, 1), pre="PreB", maxrec=deep, restart=12)], 40 if tier == "quick" else 400)
+                        R.inst("deep_min0_t", trig="startup", append=False, count=1, limit=0, sizes=(0, 1), pre="PreB", maxrec=deep, restart=12)], 40 if tier == "quick" else 120)
     # the first records arrive simultaneously from several threads (released by a barrier)
     for mn in (0, 1, 2):
         # the first scenario of each batch is one long lifetime (4 threads x 80 / 600 records)
